@@ -616,6 +616,11 @@ for m in ["crc", "cobs"]:
 for w in ["u16", "u32", "u64", "u128"]:
     V("C01.L.varint.roundtrip_" + w, "devarint", "lemma_varint_roundtrip_" + w, {"C01": "D", "C03": "S"}, kind="L",
       note="dec_" + w + "(enc(n) ++ rest) == Ok(n, |enc(n)|) for EVERY n: the bit-form decoder the real reader is proved to compute (C03.V.de.take_*) inverts the arithmetic encoder the real writer is proved to emit (C02.V.varint.*); induction over the bytes, bit-vector step lemmas per position")
+for _b in [16, 32, 64, 128]:
+    V("C01.L.rt.i%d" % _b, "dekinds", "lemma_rt_i%d" % _b, {"C01": "D"}, kind="L",
+      note="what serialize_i%d is proved to write (enc(zz(v)), unit emit) is what deserialize_i%d is proved to show the visitor (unzz(dec_u%d(..)), unit dekinds): the same v, consuming exactly the encoding - every v, every continuation" % (_b, _b, _b))
+V("C01.L.rt.len_prefixed", "dekinds", "lemma_rt_len_prefixed", {"C01": "D"}, kind="L",
+  note="what serialize_bytes / serialize_str are proved to write (enc(len) ++ body) is what deserialize_bytes / deserialize_str are proved to show the visitor: exactly that body, leaving exactly the rest - bodies of EVERY length")
 # ---------------------------------------------------------------- wire-model lemmas (spec level): nesting to any depth
 V("C01.L.model.roundtrip", "wiremodel", "lemma_model_roundtrip", {"C01": "D"}, kind="L",
   note="for every well-typed value of the serde data model nested to ANY depth (leaf kinds abstract; option, seq/map, tuple/struct, enum variants): dec(shape, enc(v) ++ rest) == (v, rest), given the per-kind leaf round trips (C01.K.kind.*) as the one hypothesis; count prefixes and variant indices are concrete (enc / dec_u64 / dec_u32) and use the PROVED varint round trip")
